@@ -18,7 +18,7 @@
    below 2^53, where exact and float64 comparison coincide; see notes/C08.md. *)
 From Coq Require Import List ZArith Bool String Ascii.
 From GZ Require Import C08.Model C08.Spec C08.Proofs C08.ProofsB.
-From GZ Require Import C08.KModel C08.KSpec C08.KProofs C08.KProofsB C08.KProofsC C08.Rounding C08.Check C08.CheckProofs C08.TagModel C08.TagProofs C08.ReqModel C08.ReqProofs.
+From GZ Require Import C08.KModel C08.KSpec C08.KProofs C08.KProofsB C08.KProofsC C08.Rounding C08.Check C08.CheckProofs C08.TagModel C08.TagProofs C08.ReqModel C08.ReqProofs C08.SrcModel C08.SrcProofs.
 From GZgen Require Import C08Consts.
 Import ListNotations.
 Open Scope Z_scope.
@@ -558,3 +558,48 @@ Proof.
   - repeat constructor; simpl; intuition discriminate.
   - split; vm_compute; [discriminate | reflexivity].
 Qed.
+
+(* ---------------------------------------------------------------- which sources httpx.Parse consults
+
+   SrcModel.v.  go-zero's Parse runs the path, form and header passes whatever the request type.
+   A Parse that skips sources is the same function exactly when every source with a member to
+   read is consulted: a view without members ([no_members]: no field, or embedded structs by value
+   without one) accepts every parameter map and leaves its fields zero; a form that is not looked
+   at must be one that GetFormValues would have let through. *)
+Theorem parse_reads_every_source_with_a_tagged_member : forall max c r vw vd,
+  (c_path c = false -> no_members (v_path vw) = true) ->
+  (c_form c = false -> no_members (v_form vw) = true /\ total_kept (hr_form r) <= max) ->
+  (c_header c = false -> no_members (v_header vw) = true) ->
+  serve_skipping max c r vw vd = serve_call (call_on max r (mkLook (EParse vd) vw)).
+Proof. exact skipping_sound. Qed.
+Print Assumptions parse_reads_every_source_with_a_tagged_member.
+
+Theorem parse_consulting_every_source_is_parse : forall max r vw vd,
+  serve_skipping max all_sources r vw vd = serve_call (call_on max r (mkLook (EParse vd) vw)).
+Proof. exact serve_all_sources. Qed.
+Print Assumptions parse_consulting_every_source_is_parse.
+
+Theorem memberless_view_accepts_and_stores_nothing : forall kc fs o,
+  no_members fs = true -> unmarshalK kc fs (Some (JObj o)) = Ok (VStruct (zero_fields fs)).
+Proof. exact empty_view_pass. Qed.
+Print Assumptions memberless_view_accepts_and_stores_nothing.
+
+(* what a scan of the declared type may rely on: IsExported-first finds nothing the unmarshaller
+   does not read, and everything it reads when no embedded struct has an unexported type name
+   (PinnedK.exported_first_scan_refuted: not otherwise) *)
+Theorem exported_first_scan_finds_no_more : forall k d, scan_exported_first k d = true -> reads k d = true.
+Proof. exact scan_finds_no_more. Qed.
+Print Assumptions exported_first_scan_finds_no_more.
+
+Theorem exported_first_scan_complete_for_exported_names : forall k d,
+  names_exported d = true -> scan_exported_first k d = reads k d.
+Proof. exact scan_complete_when_names_exported. Qed.
+Print Assumptions exported_first_scan_complete_for_exported_names.
+
+Example ex_skipping :
+  let vw := mkViews (FEmbed false false FNil FNil) (FEmbed false false FNil FNil) FNil
+                    (FCons "filter" (Some (mkOpts true None None None [] false)) (TPrim KStr) FNil) in
+  no_members (v_path vw) = true /\ no_members (v_form vw) = true /\ no_members (v_header vw) = true /\
+  serve_skipping 2048 (mkConsulted false false false) (mkHReq [("id", "5")] [("page", ["2"])] [] (Some (JObj [("filter", JStr "q")]))) vw None =
+    CAccepted [VStruct [VStruct []]; VStruct [VStruct []]; VStruct []; VStruct [VStr "q"]].
+Proof. vm_compute. repeat split. Qed.
